@@ -27,6 +27,20 @@ func Record(sut SUT, seed int64, traces, length int, out string) (events int, er
 		}
 		events++
 		for i := 0; i < length; i++ {
+			// a SUT may offer scenarios of its own (several calls, some of them concurrent): it returns the complete
+			// lines (stimulus, result, state) in the order in which the calls took effect
+			if sc, ok := sut.(interface{ Scenario(*rand.Rand) []Ev }); ok && r.Intn(5) == 0 {
+				for _, line := range sc.Scenario(r) {
+					if err := enc.Encode(line); err != nil {
+						return events, err
+					}
+					events++
+				}
+				if d, ok := sut.(interface{ Dead() bool }); ok && d.Dead() {
+					break
+				}
+				continue
+			}
 			s := sut.RandomStimulus(r)
 			OnHang = func(Ev) { // the call does not return: the trace ends with the hang as its observation
 				line := Ev{}
